@@ -654,6 +654,10 @@ def _check_constants(ctx, rep):
                     (OBJ + "state.State.calc_proj_eq_constraint_with_var", "new_var")):
         f = ix.func(qn)
         st = _store_consts(f, var)
+        if not st:
+            # whatever the working copy is called: the subscript stores into locals of this function
+            locs = {n.targets[0].id for n in own_nodes(f.node) if isinstance(n, ast.Assign) and len(n.targets) == 1 and isinstance(n.targets[0], ast.Name)}
+            st = [x for v_ in sorted(locs) for x in _store_consts(f, v_)]
         if len(st) != 1:
             rep.undecided("I5", f, "store", "expected one constant store into %s, found %d" % (var, len(st)))
             continue
